@@ -23,6 +23,12 @@ inductive Err
   | unmodelled   -- input outside what the model describes (never produced for generated inputs)
   deriving DecidableEq, Repr
 
+instance instDecidableEqExcept {ε α} [DecidableEq ε] [DecidableEq α] : DecidableEq (Except ε α)
+  | .ok a, .ok b => if h : a = b then isTrue (h ▸ rfl) else isFalse (fun h' => h (Except.ok.inj h'))
+  | .error a, .error b => if h : a = b then isTrue (h ▸ rfl) else isFalse (fun h' => h (Except.error.inj h'))
+  | .ok _, .error _ => isFalse (fun h => nomatch h)
+  | .error _, .ok _ => isFalse (fun h => nomatch h)
+
 /-- A masked integer table as returned by the `*_array` properties; `none` = masked. -/
 abbrev Table := List (List (Option Int))
 
@@ -175,6 +181,19 @@ def normPair (p : Pair) : Pair := if p.1 ≤ p.2 then p else (p.2, p.1)
 
 /-- every consecutive pair of every face, faces in order, columns in order -/
 def allPairs (faces : List (List Int)) : List Pair := faces.flatMap facePairs
+
+/-- how many face sides have the undirected node pair `e` -/
+def sideCount (faces : List (List Int)) (e : Pair) : Nat :=
+  ((allPairs faces).map normPair).count (normPair e)
+
+/-- the validity hypothesis of the derived tables, decidable: every undirected node pair is a
+side of at most two faces (manifold mesh), and no face uses the same node pair for two of its
+sides (true of every simple polygon with at least three distinct nodes) -/
+def Manifold (faces : List (List Int)) : Prop :=
+  (∀ p ∈ allPairs faces, sideCount faces p ≤ 2) ∧ ∀ f ∈ faces, ((facePairs f).map normPair).Nodup
+
+instance (faces : List (List Int)) : Decidable (Manifold faces) := by
+  unfold Manifold; infer_instance
 
 /-! ## `make_edge_node_array` -/
 
